@@ -294,8 +294,34 @@ def run_check(prop, tier):
                 if len(set(h for _, h in lst)) > 1:
                     violations.append({"kind": "oracle:rayon-nondeterminism", "stream": key[0], "detail": str(lst)})
 
+    # ---- probes: the minimal witnesses of every finding recorded for this property (one process each)
+    probe_results = {}
+    if rep["harness_ok"]:
+        for k in known:
+            if prop not in k["properties"] or not k.get("probe"):
+                continue
+            pid = k["probe"]
+            try:
+                p = subprocess.run([HBIN, "probe", pid], stdout=subprocess.PIPE, stderr=subprocess.STDOUT, text=True, timeout=900)
+                out, rc = p.stdout, p.returncode
+            except subprocess.TimeoutExpired:
+                out, rc = "", -999
+            m = re.search(r"^PROBE %s (violates|holds) ?(.*)$" % re.escape(pid), out, flags=re.M)
+            if m:
+                verdict, detail = m.group(1), m.group(2)
+            elif rc != 0:
+                verdict, detail = "violates", "process died (rc=%s): %s" % (rc, out.strip().splitlines()[-1][:200] if out.strip() else "")
+            else:
+                verdict, detail = "unknown", out[-200:]
+            probe_results[pid] = {"verdict": verdict, "detail": detail[:400], "status": k["status"]}
+            if verdict == "violates":
+                violations.append({"kind": "probe", "probe": pid, "op": "probe " + pid, "detail": "%s: %s" % (pid, detail[:600]), "legacy": "probe",
+                                   "finding_status": k["status"]})
+            elif k["status"] == "open":
+                notes.append("open finding %s no longer reproduces: %s" % (pid, detail[:200]))
+
     # ---- proof break: name the theorem(s) and say whether a failing input was found
-    found_input = any(v["kind"].startswith("oracle") or v["kind"] == "model-vs-impl" for v in violations)
+    found_input = any(v["kind"].startswith("oracle") or v["kind"] in ("model-vs-impl", "probe") for v in violations)
     if proof_broken:
         v = {"kind": "proof-obligation-broken", "theorems": undischarged[:30], "tie": rep["tie"], "lean_errors": rep.get("lean_errors", []),
              "sorry": rep["sorry"][:10], "bad_axioms": rep["bad_axioms"][:10], "forbidden": rep["forbidden"][:10],
@@ -320,7 +346,7 @@ def run_check(prop, tier):
     if real:
         exit_code = 1
         # group: one replay file per violation kind (first few)
-        has_input = any(v["kind"].startswith("oracle") or v["kind"] == "model-vs-impl" for v in real)
+        has_input = any(v["kind"].startswith("oracle") or v["kind"] in ("model-vs-impl", "probe") for v in real)
         shown = 0
         for v in real:
             if shown >= 5:
@@ -356,6 +382,8 @@ def run_check(prop, tier):
             "model_vs_impl_disagreements": dis_total,
             "impl_vs_oracle_failures": oracle_fail,
             "known_findings_hit": {k: v["count"] for k, v in known_hit.items()},
+            "probes": probe_results,
+            "notes": notes,
             "streams": stream_infos,
             "input_distribution": O.summarize_distribution(distribution),
             "samples": samples if samples else [{"obligation": n} for _, n in obligations[:3]],
